@@ -29,15 +29,19 @@ from dsim.worlds.solver import my_symmetry_operator
 
 # (molecule name, geometry parameter, restricted?, solver kinds that may be drawn, weight in the quick tier)
 MOLS = [
-    ("H2", 0.8, ["fci", "mp2", "ccsd", "vqe"]),
-    ("H2", 1.3, ["fci", "mp2", "vqe"]),
-    ("H2_triplet", 0.8, ["fci", "vqe"]),
-    ("H3_doublet", 0.9, ["fci", "vqe"]),
-    ("H4_f0", 0.9, ["fci", "ccsd", "vqe", "mp2"]),
-    ("H4_f03", 0.9, ["fci", "ccsd", "vqe", "mp2"]),
-    ("H4", 0.9, ["fci", "mp2"]),
-    ("H4_cation", 0.9, ["fci"]),
-    ("H4_ring", 1.0, ["fci", "mp2"]),
+    ("H2", 0.8, ["fci", "mp2", "ccsd", "vqe"], False, None),
+    ("H2", 1.3, ["fci", "mp2", "vqe"], False, None),
+    ("H2_triplet", 0.8, ["fci", "vqe"], False, None),
+    ("H3_doublet", 0.9, ["fci", "vqe"], False, None),
+    ("H4_f0", 0.9, ["fci", "ccsd", "vqe", "mp2"], False, None),
+    ("H4_f03", 0.9, ["fci", "ccsd", "vqe", "mp2"], False, None),
+    ("H4", 0.9, ["fci", "mp2"], False, None),
+    ("H4_cation", 0.9, ["fci"], False, None),
+    ("H4_ring", 1.0, ["fci", "mp2"], False, None),
+    # unrestricted references: matrices per spin block ([alpha, beta], [aa, ab, bb]); only CCSD and the UCCSD ansatz (JW) support them
+    ("H2", 0.8, ["ccsd", "vqe", "vqe"], True, None),
+    ("H4_cation", 0.9, ["ccsd", "vqe", "vqe"], True, [[0], [0]]),
+    ("H4_cation", 0.9, ["vqe"], True, [[0, 3], [0, 3]]),
 ]
 VQE_ANSATZ = ["UCCSD", "UCCSD", "HEA", "UpCCGSD"]
 TOL = {"fci": 1e-8, "mp2": 1e-7, "ccsd": 2e-6, "vqe": 1e-6}
@@ -65,10 +69,10 @@ class RdmWorld(World):
 
     def draw_config(self, rng):
         thorough = self.ctx.tier == "thorough"
-        name, d, kinds = rng.choice(MOLS)
-        if not thorough and name in ("H4", "H4_cation", "H4_ring") and rng.random() < 0.5:
-            name, d, kinds = rng.choice(MOLS[:6])
-        return {"mol": name, "d": d, "kinds": kinds, "n_steps": rng.randint(5, 10) if not thorough else rng.randint(8, 18),
+        name, d, kinds, uhf, frozen = rng.choice(MOLS)
+        if not thorough and name in ("H4", "H4_cation", "H4_ring") and not uhf and rng.random() < 0.5:
+            name, d, kinds, uhf, frozen = rng.choice(MOLS[:6])
+        return {"mol": name, "d": d, "kinds": kinds, "uhf": uhf, "frozen": frozen, "n_steps": rng.randint(5, 10) if not thorough else rng.randint(8, 18),
                 "shots": rng.choice([None, None, 10 ** 4, 10 ** 5]), "mapping": rng.choice(["jw", "jw", "bk", "scbk", "jkmn"]),
                 "utd": rng.choice([False, True]), "ansatz": rng.choice(VQE_ANSATZ),
                 "faults": rng.random() < 0.8, "fault_rate": rng.choice([0.1, 0.2])}
@@ -112,7 +116,7 @@ class RdmWorld(World):
     # -- helpers ------------------------------------------------------------------------------------------------------
     def _mol(self):
         if self.mol is None:
-            self.mol = molecule(self.config["mol"], self.config["d"])
+            self.mol = molecule(self.config["mol"], self.config["d"], uhf=bool(self.config.get("uhf")), frozen=self.config.get("frozen"))
         return self.mol
 
     def _new_solver(self, kind):
@@ -120,6 +124,8 @@ class RdmWorld(World):
         from tangelo.algorithms.variational import VQESolver, BuiltInAnsatze
         mol, cfg = self._mol(), self.config
         if kind == "vqe":
+            if mol.uhf:
+                cfg["ansatz"], cfg["mapping"] = "UCCSD", "jw"
             opts = {"molecule": mol, "ansatz": getattr(BuiltInAnsatze, cfg["ansatz"]), "qubit_mapping": cfg["mapping"], "up_then_down": cfg["utd"],
                     "backend_options": {"target": "cirq", "n_shots": cfg["shots"]}}
             if cfg["ansatz"] == "HEA":
@@ -149,7 +155,8 @@ class RdmWorld(World):
         n = max(s.ansatz.circuit.width, M.n_qubits_of(hterms), 1)
         gates = [C.j_to_ref(C.gate_to_j(g)) for g in s.ansatz.circuit]
         psi = R.run(gates, n)
-        nq = fermion_to_qubit_mapping(fermion_operator=my_symmetry_operator("N", mol.n_active_mos), mapping=cfg["mapping"], n_spinorbitals=mol.n_active_sos,
+        nm = max(mol.n_active_mos) if isinstance(mol.n_active_mos, (list, tuple)) else mol.n_active_mos
+        nq = fermion_to_qubit_mapping(fermion_operator=my_symmetry_operator("N", nm), mapping=cfg["mapping"], n_spinorbitals=2 * nm,
                                       n_electrons=mol.n_active_electrons, up_then_down=cfg["utd"], spin=mol.active_spin)
         nterms = {t: complex(c) for t, c in nq.terms.items()}
         return psi, n, hterms, nterms
@@ -194,7 +201,7 @@ class RdmWorld(World):
             self.solvers.append(e)
             self.solvers = self.solvers[-3:]
         kind, s = e["kind"], e["obj"]
-        site = f"{kind}:{self.config['mol']}" + (f":{self.config['ansatz']}:{self.config['mapping']}" if kind == "vqe" else "")
+        site = f"{kind}:{self.config['mol']}" + (":uhf" if self.config.get("uhf") else "") + (f":{self.config['ansatz']}:{self.config['mapping']}" if kind == "vqe" else "")
         self.sig.add((k, kind, self.config["mol"], self.config["shots"] if kind == "vqe" else None))
         if k == "simulate":
             if kind == "vqe":
@@ -271,7 +278,11 @@ class RdmWorld(World):
         th = self._theta(op, n, e["theta"])
         sum_spin = bool(op.get("sum_spin", True))
         try:
-            r1, r2 = quiet(s.get_rdm, np.array(th), sum_spin=sum_spin)
+            if mol.uhf:
+                sum_spin = True
+                r1, r2 = quiet(s.get_rdm_uhf, np.array(th))
+            else:
+                r1, r2 = quiet(s.get_rdm, np.array(th), sum_spin=sum_spin)
         except Exception as ex:
             if s.ansatz.circuit.size == 0:
                 ctx.outcome("rdm", "refused-undetermined")           # an ansatz circuit without any gate has no width (cf. C08)
@@ -296,7 +307,7 @@ class RdmWorld(World):
         # saved frequencies belong to the parameters they were measured at: resampling is asked for those parameters
         th = e.get("rdm_theta") if e.get("rdm_theta") is not None else [0.0] * s.ansatz.n_var_params
         try:
-            r1, r2 = quiet(s.get_rdm, np.array(th), resample=True)
+            r1, r2 = quiet(s.get_rdm_uhf, np.array(th), resample=True) if self._mol().uhf else quiet(s.get_rdm, np.array(th), resample=True)
         except Exception as ex:
             if not e["have_freqs"]:
                 ctx.outcome("resample", "refused-as-expected")
@@ -359,6 +370,8 @@ class RdmWorld(World):
         psi, n, hterms, nterms = self._vqe_reference(s)
         e_ref = float(np.vdot(psi, M.dense(hterms, n) @ psi).real)
         n_ref = float(np.vdot(psi, M.dense(nterms, n) @ psi).real)
+        if mol.uhf:
+            return self._judge_vqe_uhf(e, site, r1, r2, th, resampled, psi, n, hterms, nterms, e_ref, n_ref)
         r1 = np.asarray(r1)
         r2 = np.asarray(r2)
         if sum_spin:
@@ -410,6 +423,48 @@ class RdmWorld(World):
         e["e"] = e_ref
         return V
 
+    def _judge_vqe_uhf(self, e, site, r1, r2, th, resampled, psi, n, hterms, nterms, e_ref, n_ref):
+        ctx, V, s, mol = self.ctx, [], e["obj"], self._mol()
+        ns = self.config["shots"]
+        ctx.probe("C13.unrestricted_form")
+        arrs = [np.asarray(a) for a in _arrays((r1, r2))]
+        if len(arrs) != 5:
+            return [Violation("C13", "unrestricted-rdms-malformed", site, {"n_arrays": len(arrs)})]
+        ones, twos = arrs[:2], arrs[2:]
+        try:
+            en = float(mol.energy_from_rdms(list(ones), list(twos)))
+        except Exception as ex:
+            return [Violation("C13", "unexpected-refusal", site + ":energy_from_rdms", {"exception": repr(ex)[:300]})]
+        tr = float(sum(np.trace(a).real for a in ones))
+        if ns is None:
+            if abs(en - e_ref) > TOL["vqe"] * max(1.0, abs(e_ref)):
+                V.append(Violation("C13", "energy-from-rdms-differs", site, {"state_energy": e_ref, "from_rdms": en, "theta": th[:8]}))
+            if abs(tr - n_ref) > 1e-6:
+                V.append(Violation("C13", "trace-differs-from-electron-count", site, {"trace": tr, "N_of_state": n_ref, "theta": th[:8]}))
+        else:
+            scale = 2.6 if resampled else 1.0
+            be, bn = self._bernstein(hterms, psi, n, ns, scale), self._bernstein(nterms, psi, n, ns, scale)
+            if abs(en - e_ref) > be:
+                V.append(Violation("C13", "energy-from-rdms-outside-statistical-bound", site, {"state_energy": e_ref, "from_rdms": en, "bound": be, "n_shots": ns, "theta": th[:8]}))
+            if abs(tr - n_ref) > bn:
+                V.append(Violation("C13", "trace-outside-statistical-bound", site, {"trace": tr, "N_of_state": n_ref, "bound": bn, "n_shots": ns}))
+        if max(herm_defect_1(a) for a in ones) > 1e-7 or max(herm_defect_2(a) for a in twos) > 1e-7:
+            V.append(Violation("C13", "not-hermitian", site, {"one": max(herm_defect_1(a) for a in ones), "two": max(herm_defect_2(a) for a in twos)}))
+        vp = np.asarray(getattr(s.ansatz, "var_params", []), dtype=float).reshape(-1)
+        if len(vp) == len(th) and len(th) > 0 and np.abs(vp - np.asarray(th)).max() > 1e-12:
+            V.append(Violation("C13", "solver-not-at-requested-parameters", site, {"theta": th[:8], "var_params": [float(x) for x in vp[:8]]}))
+        keep = tuple(np.array(a, copy=True) for a in arrs)
+        if ns is None and e["last"] is not None and len(e["last"]) == 5 and e.get("last_theta") == th and not resampled:
+            ctx.check("C13.same_answer_again")
+            if e.get("scribbled"):
+                ctx.probe("C13.get_rdm_again_after_caller_modified_result")
+            d = max(float(np.abs(a - b).max()) for a, b in zip(keep, e["last"]))
+            if d > 1e-7:
+                V.append(Violation("C13", "rdm-changed-between-identical-calls", site, {"max_abs_diff": d, "after_caller_modified_result": bool(e.get("scribbled"))}))
+        e["last"], e["last_theta"], e["scribbled"] = keep, list(th), False
+        e["e"] = e_ref
+        return V
+
     # -- padding with the frozen orbitals -------------------------------------------------------------------------------
     def _pad(self, op, e, site):
         from tangelo.toolboxes.molecular_computation.rdms import pad_rdms_with_frozen_orbitals_restricted, pad_rdms_with_frozen_orbitals_unrestricted
@@ -437,12 +492,13 @@ class RdmWorld(World):
         if any(not np.array_equal(a, b) for a, b in zip(args, before)):
             V.append(Violation("C13", "padding-modified-its-arguments", "pad_rdms_with_frozen_orbitals", {"source": site}))
         tr = float(sum(np.trace(a).real for a in (_arrays((p1,)))))
-        exp_tr = mol.n_electrons if e["kind"] != "vqe" else mol.n_electrons - mol.n_active_electrons + float(np.trace(e["last"][0]).real)
+        n_one = 2 if mol.uhf else 1
+        exp_tr = mol.n_electrons if e["kind"] != "vqe" else mol.n_electrons - mol.n_active_electrons + float(sum(np.trace(a).real for a in e["last"][:n_one]))
         if abs(tr - exp_tr) > 1e-6:
             V.append(Violation("C13", "padded-trace-differs-from-total-electron-count", "pad_rdms_with_frozen_orbitals", {"trace": tr, "expected": exp_tr, "source": site}))
-        if not mol.uhf:
+        if True:
             try:
-                e_full = full_space_energy(mol, np.asarray(p1), np.asarray(p2))
+                e_full = full_space_energy_uhf(mol, p1, p2) if mol.uhf else full_space_energy(mol, np.asarray(p1), np.asarray(p2))
             except Exception as ex:
                 raise HarnessError(f"full-space energy oracle failed: {ex!r}")
             tol = TOL[e["kind"]] * 5
@@ -471,3 +527,19 @@ def full_space_energy(mol, p1, p2):
     nmo = Cmo.shape[1]
     eri = ao2mo.restore(1, ao2mo.kernel(mf.mol, Cmo), nmo)
     return float((mf.mol.energy_nuc() + np.einsum("pq,pq->", h, p1) + 0.5 * np.einsum("pqrs,pqrs->", eri, p2)).real)
+
+
+def full_space_energy_uhf(mol, p1, p2):
+    """Unrestricted analogue: [alpha, beta] one-particle and [aa, ab, bb] two-particle matrices, chemist ordering."""
+    from pyscf import ao2mo
+    mf = mol.mean_field
+    Ca, Cb = np.asarray(mol.mo_coeff[0]), np.asarray(mol.mo_coeff[1])
+    hc = mf.get_hcore()
+    na, nb = Ca.shape[1], Cb.shape[1]
+    ha, hb = Ca.T @ hc @ Ca, Cb.T @ hc @ Cb
+    eaa = ao2mo.general(mf.mol, (Ca, Ca, Ca, Ca), compact=False).reshape(na, na, na, na)
+    eab = ao2mo.general(mf.mol, (Ca, Ca, Cb, Cb), compact=False).reshape(na, na, nb, nb)
+    ebb = ao2mo.general(mf.mol, (Cb, Cb, Cb, Cb), compact=False).reshape(nb, nb, nb, nb)
+    e = (mf.mol.energy_nuc() + np.einsum("pq,pq->", ha, p1[0]) + np.einsum("pq,pq->", hb, p1[1])
+         + 0.5 * np.einsum("pqrs,pqrs->", eaa, p2[0]) + np.einsum("pqrs,pqrs->", eab, p2[1]) + 0.5 * np.einsum("pqrs,pqrs->", ebb, p2[2]))
+    return float(np.real(e))
